@@ -18,6 +18,8 @@ def tasks(run):
 
 
 def run(run):
+    from pyvc import skeleton
+    skeleton.apply(run, 'C05')
     runner.load_contracts()
     components.ast_functions(run, FUNCS, run.tier, rt_quick=25, rt_thorough=150)
     hc.solve_scenarios(run, 'C05', tasks(run), 'rt-solve-sent',
